@@ -963,6 +963,78 @@ def splice_anchors(body, anchors, fnname):
     return body, n
 
 
+
+def stream_out_transform(body, stream_vars, str_macros=()):
+    """R11: `*out << a << b << ...;` -> one call per operand (out_str / out_char / out_dec / out_setw / out_fill / OUT_NUM).
+    Operands are split at top-level `<<` only; returns (body, number of chains rewritten)."""
+    n = 0
+    for var in stream_vars:
+        pat = re.compile(r'(?<![\w>.])(\*\s*' + re.escape(var) + r'|' + re.escape(var) + r')\s*<<')
+        pos = 0
+        out = []
+        while True:
+            m = pat.search(body, pos)
+            if not m:
+                out.append(body[pos:])
+                break
+            # find the end of the statement
+            depth = 0
+            i = m.end()
+            ops = []
+            cur = m.end()
+            instr = None
+            while i < len(body):
+                c = body[i]
+                if instr:
+                    if c == '\\':
+                        i += 2
+                        continue
+                    if c == instr:
+                        instr = None
+                elif c in '"\'':
+                    instr = c
+                elif c in '([{':
+                    depth += 1
+                elif c in ')]}':
+                    depth -= 1
+                elif c == ';' and depth == 0:
+                    break
+                elif c == '<' and depth == 0 and body[i:i + 2] == '<<':
+                    ops.append(body[cur:i])
+                    i += 2
+                    cur = i
+                    continue
+                i += 1
+            ops.append(body[cur:i])
+            target = var if m.group(1).startswith('*') else '&' + var
+            calls = []
+            for op in ops:
+                o = op.strip()
+                nl = '\n' * op.count('\n')
+                if o == 'dec':
+                    calls.append('out_dec(%s);%s' % (target, nl))
+                elif o == 'hex':
+                    calls.append('out_hex(%s);%s' % (target, nl))
+                elif re.match(r'^setw\((.*)\)$', o):
+                    calls.append('out_setw(%s, %s);%s' % (target, re.match(r'^setw\((.*)\)$', o).group(1), nl))
+                elif re.match(r'^setfill\((.*)\)$', o):
+                    calls.append('out_fill(%s, %s);%s' % (target, re.match(r'^setfill\((.*)\)$', o).group(1), nl))
+                elif re.match(r'^setprecision\((.*)\)$', o):
+                    calls.append('out_precision(%s, %s);%s' % (target, re.match(r'^setprecision\((.*)\)$', o).group(1), nl))
+                elif o.startswith('"') or o in str_macros:
+                    calls.append('out_str(%s, %s);%s' % (target, o, nl))
+                elif o.startswith("'"):
+                    calls.append('out_char(%s, %s);%s' % (target, o, nl))
+                else:
+                    calls.append('OUT_NUM(%s, %s);%s' % (target, o, nl))
+            out.append(body[pos:m.start()])
+            out.append('{ ' + ' '.join(calls) + ' }')
+            pos = i + 1
+            n += 1
+        body = ''.join(out)
+    return body, n
+
+
 def extract_function(repo, spec, cfg, rw=None):
     """spec: dict(file=, name= qualified C++ name, cname=, self= C struct name or None, nth=, sig=,
     inline_class= for header inline methods, loops={k:text}, anchors=[...], static=bool)"""
@@ -988,6 +1060,12 @@ def extract_function(repo, spec, cfg, rw=None):
         if not (lo_ <= n <= hi_):
             raise ExtractError('%s: pre_sub %r matched %d times, expected %s' % (spec['name'], pat, n, cnt))
         rw.fire('P:' + pat[:40], n)
+    if spec.get('stream_out'):
+        so = spec['stream_out']
+        body_src, nso = stream_out_transform(body_src, so['vars'], so.get('str_macros', ()))
+        if nso < so.get('min', 1):
+            raise ExtractError('%s: stream output rule R11 rewrote %d chains, expected at least %d' % (spec['name'], nso, so.get('min', 1)))
+        rw.fire('R11', nso)
     body = rw.body(body_src, dict(refs), self_type, fn['is_const'])
     if fn['ret'].strip().endswith('&') and 'ret' not in spec:
         body, nref = re.subn(r'\breturn\s+([^;]+);', r'return &(\1);', body)
